@@ -75,30 +75,41 @@ def point(shape, hdd_bp: Real, hdd_beta: Real, hdd_k: Real, cdd_bp: Real, cdd_be
     hl = at(r[2])
     cl = at(r[3])
     corner = edge_corner(shape, hdd_bp, hdd_k, cdd_bp, cdd_k, T_min, T_max)
+    drop = edge_drop(shape, hdd_bp, cdd_bp, T_min, T_max)
+    # `loose` excludes both known classes (claims about the line / asymptote beyond a balance point whose slope
+    # the read-back step removes); everything else is excluded only where it really fails on the pinned tree:
+    # for the smoothed two-sided shape removing a side also re-derives the smoothing of the other side, so every
+    # claim stated relative to the documented joints is in the class; for the unsmoothed one only the line claims.
+    loose = Or(corner, drop)
+    fid = "C11-edge"
+    fid_loose = "C11-edge+C11-edge-drop"
+    if shape == "hdd_tidd_cdd_smooth":
+        corner = loose
+        fid = fid_loose
     [bph, kh, bpc, kc] = eff_points(shape, hdd_bp, hdd_k, cdd_bp, cdd_k)
     bh = heating_slope(shape, hdd_beta)
     bc = cooling_slope(shape, cdd_beta)
     above_h = True if bph is None else t >= bph
     below_c = True if bpc is None else t <= bpc
-    check("C11.flat", implies(And(above_h, below_c), E == intercept), finding="C11-edge", unless=corner)
+    check("C11.flat", implies(And(above_h, below_c), E == intercept), finding=fid, unless=corner)
     if bph is not None:
         if shape in SMOOTH:
             line = intercept + bh * (bph - kh - t)
             # beyond the balance point the curve lies above the straight line with the fitted slope through
             # (bp - k, base load), by at most slope*k; it is ON the line when no smoothing is in effect
             check("C11.asymptote.heat", implies(t < bph, And(E >= line, E - line <= bh * kh, implies(kh > 0, E > line))),
-                  finding="C11-edge", unless=corner)
+                  finding=fid_loose, unless=loose)
         else:
-            check("C11.linear.heat", implies(t < bph, E == intercept + bh * (bph - t)), finding="C11-edge", unless=corner)
+            check("C11.linear.heat", implies(t < bph, E == intercept + bh * (bph - t)), finding=fid_loose, unless=loose)
     if bpc is not None:
         if shape in SMOOTH:
             line = intercept + bc * (t - bpc - kc)
             check("C11.asymptote.cool", implies(t > bpc, And(E >= line, E - line <= bc * kc, implies(kc > 0, E > line))),
-                  finding="C11-edge", unless=corner)
+                  finding=fid_loose, unless=loose)
         else:
-            check("C11.linear.cool", implies(t > bpc, E == intercept + bc * (t - bpc)), finding="C11-edge", unless=corner)
-    check("C11.loads.nonneg", And(hl >= 0, cl >= 0), finding="C11-edge", unless=corner)
-    check("C11.loads.exclusive", Or(hl == 0, cl == 0), finding="C11-edge", unless=corner)
+            check("C11.linear.cool", implies(t > bpc, E == intercept + bc * (t - bpc)), finding=fid_loose, unless=loose)
+    check("C11.loads.nonneg", And(hl >= 0, cl >= 0), finding=fid, unless=corner)
+    check("C11.loads.exclusive", Or(hl == 0, cl == 0), finding=fid, unless=corner)
     check("C11.loads.additive", intercept + hl + cl == E)
     check("C11.unc", at(r[1]) == f_unc)
 
@@ -117,6 +128,17 @@ def pair(shape, hdd_bp: Real, hdd_beta: Real, hdd_k: Real, cdd_bp: Real, cdd_bet
     E1 = at(PS(None, sub, T1)[0])
     E2 = at(PS(None, sub, T2)[0])
     corner = edge_corner(shape, hdd_bp, hdd_k, cdd_bp, cdd_k, T_min, T_max)
+    drop = edge_drop(shape, hdd_bp, cdd_bp, T_min, T_max)
+    # `loose` excludes both known classes (claims about the line / asymptote beyond a balance point whose slope
+    # the read-back step removes); everything else is excluded only where it really fails on the pinned tree:
+    # for the smoothed two-sided shape removing a side also re-derives the smoothing of the other side, so every
+    # claim stated relative to the documented joints is in the class; for the unsmoothed one only the line claims.
+    loose = Or(corner, drop)
+    fid = "C11-edge"
+    fid_loose = "C11-edge+C11-edge-drop"
+    if shape == "hdd_tidd_cdd_smooth":
+        corner = loose
+        fid = fid_loose
     [bph, kh, bpc, kc] = eff_points(shape, hdd_bp, hdd_k, cdd_bp, cdd_k)
     bh = heating_slope(shape, hdd_beta)
     bc = cooling_slope(shape, cdd_beta)
@@ -136,31 +158,31 @@ def pair(shape, hdd_bp: Real, hdd_beta: Real, hdd_k: Real, cdd_bp: Real, cdd_bet
         facts.append(lemma("C11.excess.heat",
                            And(implies(t1 <= bph, And(E1 >= intercept, E1 - intercept <= bh * (bph - t1))),
                                implies(t2 <= bph, And(E2 >= intercept, E2 - intercept <= bh * (bph - t2)))),
-                           finding="C11-edge", unless=corner))
-        facts.append(lemma("C11.mono.heat", implies(t2 <= bph, E1 >= E2), finding="C11-edge", unless=corner))
-        facts.append(lemma("C11.slope.heat", implies(t2 <= bph, E1 - E2 <= bh * (t2 - t1)), finding="C11-edge", unless=corner))
+                           finding=fid, unless=corner))
+        facts.append(lemma("C11.mono.heat", implies(t2 <= bph, E1 >= E2), finding=fid, unless=corner))
+        facts.append(lemma("C11.slope.heat", implies(t2 <= bph, E1 - E2 <= bh * (t2 - t1)), finding=fid, unless=corner))
         if shape in SMOOTH:
             # the gap to the asymptote does not grow as the temperature moves away from the balance point
             g1 = E1 - (intercept + bh * (bph - kh - t1))
             g2 = E2 - (intercept + bh * (bph - kh - t2))
-            check("C11.asymptote.shrinks.heat", implies(t2 <= bph, g1 <= g2), finding="C11-edge", unless=corner)
+            check("C11.asymptote.shrinks.heat", implies(t2 <= bph, g1 <= g2), finding=fid_loose, unless=loose)
     if bpc is not None:
         facts.append(lemma("C11.excess.cool",
                            And(implies(t1 >= bpc, And(E1 >= intercept, E1 - intercept <= bc * (t1 - bpc))),
                                implies(t2 >= bpc, And(E2 >= intercept, E2 - intercept <= bc * (t2 - bpc)))),
-                           finding="C11-edge", unless=corner))
-        facts.append(lemma("C11.mono.cool", implies(t1 >= bpc, E2 >= E1), finding="C11-edge", unless=corner))
-        facts.append(lemma("C11.slope.cool", implies(t1 >= bpc, E2 - E1 <= bc * (t2 - t1)), finding="C11-edge", unless=corner))
+                           finding=fid, unless=corner))
+        facts.append(lemma("C11.mono.cool", implies(t1 >= bpc, E2 >= E1), finding=fid, unless=corner))
+        facts.append(lemma("C11.slope.cool", implies(t1 >= bpc, E2 - E1 <= bc * (t2 - t1)), finding=fid, unless=corner))
         if shape in SMOOTH:
             g1 = E1 - (intercept + bc * (t1 - bpc - kc))
             g2 = E2 - (intercept + bc * (t2 - bpc - kc))
-            check("C11.asymptote.shrinks.cool", implies(t1 >= bpc, g2 <= g1), finding="C11-edge", unless=corner)
+            check("C11.asymptote.shrinks.cool", implies(t1 >= bpc, g2 <= g1), finding=fid_loose, unless=loose)
     above_h1 = True if bph is None else t1 >= bph
     below_c1 = True if bpc is None else t1 <= bpc
     above_h2 = True if bph is None else t2 >= bph
     below_c2 = True if bpc is None else t2 <= bpc
     facts.append(lemma("C11.flat.pair", And(implies(And(above_h1, below_c1), E1 == intercept),
                                             implies(And(above_h2, below_c2), E2 == intercept)),
-                       finding="C11-edge", unless=corner))
-    check("C11.lipschitz.down", E1 - E2 <= L * (t2 - t1), finding="C11-edge", unless=corner, given=facts)
-    check("C11.lipschitz.up", E2 - E1 <= L * (t2 - t1), finding="C11-edge", unless=corner, given=facts)
+                       finding=fid, unless=corner))
+    check("C11.lipschitz.down", E1 - E2 <= L * (t2 - t1), finding=fid, unless=corner, given=facts)
+    check("C11.lipschitz.up", E2 - E1 <= L * (t2 - t1), finding=fid, unless=corner, given=facts)
